@@ -5,7 +5,7 @@ CONSTANTS
   ScopeNames = {"a", "ab"}
   MaxScopeDepth = 3
   MaxStack = 4
-  BindVals <- BV12
+  BindVals <- BV123
   MaxBindings = 5
   Enabled = {"Bind", "EnterScope", "ExitScope", "Call"}
   NameOrder <- Names6
